@@ -48,6 +48,22 @@ Tactic Notation "ebind" hyp(H) "as" simple_intropattern(p) "named" ident(E) :=
 Lemma exec_list_nil_err fuel esc s k : exec_list c fuel esc s [] = Err k -> False.
 Proof. destruct fuel; cbn; discriminate. Qed.
 
+Lemma assign_err tgt s item k pc stk esc escs caps its calls :
+  bind_target tgt s item = Err k -> code_at C pc (assign_code tgt) ->
+  errs (mkVm pc (item :: stk) s esc escs caps its calls) k.
+Proof.
+  intros Hb Hc. destruct tgt as [x|x y]; cbn [assign_code bind_target] in *; [discriminate|].
+  apply errs_here. at_instr Hc.
+  destruct (unpack_items item) as [l|]; [|inversion Hb; reflexivity].
+  destruct l as [|a [|b [|? ?]]]; inversion Hb; reflexivity.
+Qed.
+
+Lemma bind_target_err_any tgt s s' item k : bind_target tgt s item = Err k -> bind_target tgt s' item = Err k.
+Proof.
+  destruct tgt as [x|x y]; cbn [bind_target]; [discriminate|].
+  destruct (unpack_items item) as [[|a [|b [|? ?]]]|]; auto. discriminate.
+Qed.
+
 Lemma binds_err fuel esc binds : eval_inv c C fuel -> (forall esc e, l2_expr e = true -> sim_expr fuel esc e) -> err_expr fuel ->
   forallb (fun p => l2_expr (snd p)) binds = true ->
   forall s k, with_binds (eval c fuel esc) s binds = Err k -> Inv s ->
@@ -62,26 +78,12 @@ Proof.
   - destruct (EV esc e Hx _ _ _ Hi E1) as [V1 I1].
     eapply errs_trans. { eapply (SE esc e Hx _ _ _ E1 Hi). eapply code_at_app_l; eauto. }
     apply code_at_app_r in Hc.
-    estep Hc idtac. apply code_at_tail in Hc.
-    replace (S (base + length (compile_expr e base))) with (base + length (compile_expr e base) + 1) in * by lia.
-    eapply (IHr Hr _ _ He); [apply store_Inv; auto|exact Hc].
+    destruct (bind_target x s1 v) as [s2| | |] eqn:E2; cbn [bind] in He; try discriminate.
+    + eapply errs_trans. { eapply (assign_sim c C x _ _ _ _ _ _ _ _ _ _ E2). eapply code_at_app_l; eauto. }
+      apply code_at_app_r in Hc.
+      eapply (IHr Hr _ _ He); [eapply bind_target_Inv; eauto|exact Hc].
+    + inversion He; subst. eapply assign_err; [exact E2|]. eapply code_at_app_l; eauto.
   - inversion He; subst. eapply (IH esc e Hx _ _ E1 Hi). eapply code_at_app_l; eauto.
-Qed.
-
-Lemma assign_err tgt s item k pc stk esc escs caps its calls :
-  bind_target tgt s item = Err k -> code_at C pc (assign_code tgt) ->
-  errs (mkVm pc (item :: stk) s esc escs caps its calls) k.
-Proof.
-  intros Hb Hc. destruct tgt as [x|x y]; cbn [assign_code bind_target] in *; [discriminate|].
-  apply errs_here. at_instr Hc.
-  destruct item as [| | | | | |l| | |]; try (inversion Hb; reflexivity).
-  destruct l as [|a [|b [|? ?]]]; inversion Hb; reflexivity.
-Qed.
-
-Lemma bind_target_err_any tgt s s' item k : bind_target tgt s item = Err k -> bind_target tgt s' item = Err k.
-Proof.
-  destruct tgt as [x|x y]; cbn [bind_target]; [discriminate|].
-  destruct item as [| | | | | |l| | |]; auto. destruct l as [|a [|b [|? ?]]]; auto. discriminate.
 Qed.
 
 Lemma if_err fuel esc els lc inl : eval_inv c C fuel -> (forall esc e, l2_expr e = true -> sim_expr fuel esc e) ->
@@ -478,7 +480,11 @@ Proof.
       exact (IHl inl (x :: b) Hels _ _ _ He I6 (loop_end + 3) lc stk escs caps its calls Hct3 Hin Hf6).
     + (* SSet *) cbn [compile_stmt] in Hc.
       ebind He as [[v s1]|k1| |] named E1.
-      injection He as ->. eapply (IHerr esc e Hw _ _ E1 Hi). eapply code_at_app_l; eauto.
+      * (* the right-hand side evaluates; the unpacking fails *)
+        ebind He as [s2|k2| |] named E2. injection He as ->.
+        eapply errs_trans. { eapply (IHe esc e Hw _ _ _ E1 Hi). eapply code_at_app_l; eauto. }
+        apply code_at_app_r in Hc. eapply assign_err; [exact E2|exact Hc].
+      * injection He as ->. eapply (IHerr esc e Hw _ _ E1 Hi). eapply code_at_app_l; eauto.
     + (* SSetBlock *) cbn [compile_stmt] in Hc.
       pose proof (code_at_head _ _ _ _ Hc) as Hb. apply code_at_tail in Hc.
       assert (Hi0 : Inv (with_out s [])) by (eapply Inv_same; [| |exact Hi]; reflexivity).
@@ -552,7 +558,7 @@ Proof.
       assert (Hpop : pop_n (length args + 1) (rev (vs ++ [kwargs_val [(N_caller, VMacro cm cl)]]) ++ stk) [] = Some (vs ++ [kwargs_val [(N_caller, VMacro cm cl)]], stk)).
       { replace (length args + 1) with (length (vs ++ [kwargs_val [(N_caller, VMacro cm cl)]])) by (rewrite app_length; cbn [length]; lia).
         rewrite (pop_n_rev (vs ++ [kwargs_val [(N_caller, VMacro cm cl)]]) stk []), app_nil_r. reflexivity. }
-      destruct fv as [[| | | | | | |mc mcl| |g]|];
+      destruct fv as [[| | | | | | | |mc mcl| |g]|];
         try (apply errs_here; rewrite (step_at _ _ _ _ _ _ _ _ _ Hcf); cbn [exec_instr v_stk v_st]; rewrite Hpop, split_kwargs_kw, El; inversion He; reflexivity).
       * ebind He as [[v s4]|k4| |] named E4. injection He as ->.
         destruct (IHcall esc s3 mc mcl vs [(N_caller, VMacro cm cl)] _ E4 I3 Vf V1 ltac:(constructor; [exact Vcm|constructor])
@@ -564,7 +570,7 @@ Proof.
       * (* a function: range does not take keyword arguments *)
         cbn [L2.Simulation.vok] in Vf. subst g.
         apply errs_here. rewrite (step_at _ _ _ _ _ _ _ _ _ Hcf). cbn [exec_instr v_stk v_st]. rewrite Hpop, split_kwargs_kw, El, Z.eqb_refl.
-        inversion He. destruct vs as [|[| | | |n0| | | | |] [|? ?]]; reflexivity.
+        inversion He. destruct vs as [|[| | | |n0| | | | | |] [|? ?]]; reflexivity.
     + (* SFilterBlock *) cbn [compile_stmt] in Hc.
       pose proof (code_at_head _ _ _ _ Hc) as Hb. apply code_at_tail in Hc.
       assert (Hi0 : Inv (with_out s [])) by (eapply Inv_same; [| |exact Hi]; reflexivity).
